@@ -160,7 +160,16 @@ class RealMachine(object):
         elif op == 'seq':
             r = formulas.formula(seq_object(st['struct'], T, st.get('tuples', False)), **kw)
         elif op == 'empty':
-            r = formulas.formula(**kw) if st.get('how') == 'none' else formulas.formula('', **kw)
+            how = st.get('how')
+            if how == 'none':
+                r = formulas.formula(**kw)
+            elif how == 'blank':
+                # a blank string (spaces, tabs) is the empty formula too, by the string route
+                r = formulas.formula(st.get('text', ' '), table=T, **kw)
+            elif how == 'parse':
+                r = formulas.parse_formula(st.get('text', ''), table=T)
+            else:
+                r = formulas.formula('', **kw)
         elif op == 'copy':
             r = formulas.formula(V[st['src']])
             V.append(r)
@@ -424,8 +433,10 @@ class ProgramGen(object):
     def leaf(self, pool):
         rng = self.rng
         r = rng.random()
-        if r < 0.02 and not self.positive:
-            st = {'op': 'empty', 'how': rng.choice(['none', 'str'])}
+        if r < 0.04 and not self.positive:
+            st = {'op': 'empty', 'how': rng.choice(['none', 'str', 'blank', 'blank', 'parse'])}
+            if st['how'] in ('blank', 'parse'):
+                st['text'] = rng.choice([' ', '  ', '\t', ' \n', '   '] + ([''] if st['how'] == 'parse' else []))
         elif r < 0.20:
             st = {'op': 'atom', 'key': list(rng.choice(pool))}
         elif r < 0.50:
